@@ -22,6 +22,7 @@ func init() {
 				"R2.listing":     "decision table of the listing fate in List and Signers",
 				"R3.sign":        "decision table of SignWithFlags",
 				"R4.maintenance": "cache maintenance in remove / RemoveAll; removal not gated by the cache",
+				"R6.decodes":     "the statement is phrased over 'a certificate whose KeyID decodes as a YSSHCA KeyID': the rules of C05 that fix what decodes (truth table of the version checker, gates of keyid.Unmarshal / Marshal) are imported, so that a change to the decoder that makes valid KeyIDs undecodable (and their certificates visible) is reported here too",
 				"R5.hardcert":    "in-memory hardware certificates stay listed and usable: AddHardCert succeeds only when the certificate is already in the in-memory table or was inserted on this path (nothing outside the table - e.g. a copy in the underlying agent, which this mode hides - may stand in for it)",
 			},
 		},
@@ -39,6 +40,8 @@ func runC09(c *Ctx) {
 		return
 	}
 	ctor := shimConstructor(w, m)
+	// ---- R6: what "decodes as a YSSHCA KeyID" means (imported from C05) ----
+	c.WithRules(map[string]string{"R2.truth": "R6.decodes", "R3.gate": "R6.decodes"}, func() { keyidDecodeRules(c) })
 	// ---- R5 ----
 	if ah := m.Methods["AddHardCert"]; ah != nil {
 		c.Saw(ah)
